@@ -213,7 +213,7 @@ pub fn run_c05(p: &mut Prng, t: Tier, i: usize, sink: &mut Sink) {
     for k in 0..nsess {
         w.exec(json!({"op":"assert.eq","a":format!("s{k}.pt"),"b":format!("s{k}.msg"),"property":"C05","oracle":"O5.1-round-trip","entry":"sm2.encrypt+decrypt","class":"round-trip","what":"decrypt(encrypt(M)) != M"}));
     }
-    if i == 40 {
+    if i == 3 + INTEROP + t.pick(24, 480) || i == 3 + INTEROP + t.pick(24, 480) + 1 {
         w.samples.push(json!({"schedule": w.history.iter().take(12).cloned().collect::<Vec<_>>() }));
     }
     sink.done(w);
